@@ -35,6 +35,8 @@ pub enum Fault {
     StringInWord(u16),
     DataInDseg(u16),
     ByteInCseg(u16),
+    /// a literal beyond 64 bits (any width but .dq must reject it; .dq may take it as unsigned)
+    HugeLiteral(u16, u8),
 }
 
 #[derive(Clone, Debug)]
@@ -65,6 +67,7 @@ pub fn raw_data() -> impl Strategy<Value = RawData> {
         1 => any::<u16>().prop_map(Fault::StringInWord),
         1 => any::<u16>().prop_map(Fault::DataInDseg),
         1 => any::<u16>().prop_map(Fault::ByteInCseg),
+        1 => (any::<u16>(), any::<u8>()).prop_map(|(i, w)| Fault::HugeLiteral(i, w)),
     ];
     (proptest::collection::vec((any::<bool>(), proptest::collection::vec(raw_line(), 1..5), proptest::option::weighted(0.3, 0u8..20)), 1..4), gen::names(40), fault, gen::style())
         .prop_map(|(blocks, names, fault, style)| RawData { blocks, names, fault, style })
@@ -106,12 +109,13 @@ pub fn build(r: &RawData) -> (Vec<Ln>, Shape) {
             let mut kind = [DKind::Db, DKind::Dw, DKind::Dd, DKind::Dq][l.kind as usize % 4];
             // fault selection for this line
             let this_fault = match &r.fault {
-                Fault::OutOfRange(i, _) | Fault::StringInWord(i) | Fault::DataInDseg(i) | Fault::ByteInCseg(i) => fault_line(*i) == line_no,
+                Fault::OutOfRange(i, _) | Fault::StringInWord(i) | Fault::DataInDseg(i) | Fault::ByteInCseg(i) | Fault::HugeLiteral(i, _) => fault_line(*i) == line_no,
                 Fault::None => false,
             };
             if this_fault {
                 match &r.fault {
                     Fault::OutOfRange(_, _) if kind == DKind::Dq => kind = DKind::Dd,
+                    Fault::HugeLiteral(_, _) if kind == DKind::Dq => kind = DKind::Dw,
                     Fault::StringInWord(_) if kind == DKind::Db => kind = DKind::Dw,
                     _ => {}
                 }
@@ -202,6 +206,12 @@ pub fn build(r: &RawData) -> (Vec<Ln>, Shape) {
                         let at = items.len() / 2;
                         items.insert(at, DItem::Ex(E::num(bad)));
                         shape.fault = "value-out-of-range";
+                    }
+                    Fault::HugeLiteral(_, w) => {
+                        const HUGE: &[&str] = &["0xFFFFFFFFFFFFFFFF", "0x8000000000000000", "$ffffffffffffffff", "18446744073709551615", "9223372036854775808", "0xFFFFFFFFFFFFFF80", "0x10000000000000000", "0b1111111111111111111111111111111111111111111111111111111111111111", "01777777777777777777777", "99999999999999999999"];
+                        let at = items.len() / 2;
+                        items.insert(at, DItem::Ex(E::Big(HUGE[*w as usize % HUGE.len()].to_string())));
+                        shape.fault = "literal-beyond-64-bits";
                     }
                     Fault::StringInWord(_) => {
                         let at = items.len() / 2;
@@ -306,7 +316,7 @@ pub fn run(ctx: &Ctx) -> Result<Ev, String> {
     if total.discarded * 20 > total.evaluations {
         return Err(format!("generator unsound: {} of {} programs inconsistent with the model's judgement", total.discarded, total.evaluations));
     }
-    for required in ["mixes-string-and-number", "boundary-value", "odd-db-followed-by-data", "eeprom-block", "non-ascii-string", "fault:value-out-of-range", "fault:string-in-word-directive", "fault:data-directive-in-dseg", "fault:byte-in-cseg"] {
+    for required in ["mixes-string-and-number", "boundary-value", "odd-db-followed-by-data", "eeprom-block", "non-ascii-string", "fault:value-out-of-range", "fault:literal-beyond-64-bits", "fault:string-in-word-directive", "fault:data-directive-in-dseg", "fault:byte-in-cseg"] {
         if !total.has_violation() && total.classes.get(required).copied().unwrap_or(0) == 0 {
             return Err(format!("generator degenerate: class {} never produced", required));
         }
